@@ -45,6 +45,7 @@ type c22Write struct {
 	must     bool // acknowledged FILE_SYNC/DATA_SYNC before the crash, or covered by an acknowledged COMMIT
 	acked    bool
 	inv, ret int64 // scheduler stamps of the call and of its reply (ret = 0: never answered)
+	trunc    bool  // a SETATTR(size = off): bytes at and beyond off may be gone, promises made before it are void there
 }
 
 // c22Client runs one request list on its own connection and returns what it wrote and the verifiers it saw.
@@ -87,9 +88,28 @@ func c22Client(cl *Client, root, fh []byte, ops []C22Op) (writes []*c22Write, ve
 			verfs = append(verfs, cr.Verf)
 		case "CREATE":
 			cl.Create(root, "other", 0, nfsclient.Sattr3{}, [8]byte{})
+		case "SETATTR":
+			sz := op.Off
+			tr := &c22Write{off: sz, trunc: true, inv: simrt.Stamp()}
+			writes = append(writes, tr)
+			if r, err := cl.Setattr(fh, nfsclient.Sattr3{Size: &sz}); err == nil && r.Status == 0 {
+				tr.ret = simrt.Stamp()
+				tr.acked = true
+			}
 		}
 	}
 	return
+}
+
+// c22Void: the promise of write x at byte p is void when a truncation to a size at or below p may have
+// taken effect after x (it was not answered before x was sent).
+func c22Void(writes []*c22Write, x *c22Write, p uint64) bool {
+	for _, t := range writes {
+		if t.trunc && t.off <= p && !(t.ret != 0 && t.ret < x.inv) {
+			return true
+		}
+	}
+	return false
 }
 
 func c22Workers(sc *C22Scn) int {
@@ -252,8 +272,14 @@ func c22Run(t *testing.T, sc *C22Scn, k int, o *Outcome, trace bool) (ncalls int
 				var must *byte
 				var cands []byte
 				anyMust := false
+				truncated := false
 				for _, x := range writes {
-					if x.must && p >= x.off && p < x.off+uint64(len(x.data)) {
+					if x.trunc && x.off <= p {
+						truncated = true
+					}
+				}
+				for _, x := range writes {
+					if x.must && p >= x.off && p < x.off+uint64(len(x.data)) && !c22Void(writes, x, p) {
 						anyMust = true
 						vv := x.data[p-x.off]
 						must = &vv
@@ -266,13 +292,16 @@ func c22Run(t *testing.T, sc *C22Scn, k int, o *Outcome, trace bool) (ncalls int
 						cands = append(cands, 0)
 					}
 				}
+				if truncated {
+					cands = append(cands, 0) // cut off and possibly re-extended with zeros
+				}
 				for _, x := range writes {
 					if p < x.off || p >= x.off+uint64(len(x.data)) {
 						continue
 					}
 					superseded := false
 					for _, y := range writes {
-						if y != x && y.must && p >= y.off && p < y.off+uint64(len(y.data)) && x.ret != 0 && y.inv > x.ret {
+						if y != x && y.must && !c22Void(writes, y, p) && p >= y.off && p < y.off+uint64(len(y.data)) && x.ret != 0 && y.inv > x.ret {
 							superseded = true
 							break
 						}
@@ -358,8 +387,10 @@ func genC22Conc(r *simrt.Rand) any {
 		for i, n := 0, 1+r.Int(3); i < n; i++ {
 			if r.Pct(78) {
 				ops = append(ops, C22Op{Op: "WRITE", Off: uint64([]int{0, 0, 5, 100, 4090, 4096, 9000}[r.Int(7)]), Len: []int{1, 10, 17, 100, 3000}[r.Int(5)], Stable: uint32(r.Int(3)), Seed: r.Uint64()})
-			} else {
+			} else if r.Pct(70) {
 				ops = append(ops, C22Op{Op: "COMMIT"})
+			} else {
+				ops = append(ops, C22Op{Op: "SETATTR", Off: uint64([]int{0, 3, 10, 100, 4096, 6000}[r.Int(6)])})
 			}
 		}
 		sc.Conc = append(sc.Conc, ops)
@@ -385,6 +416,9 @@ func genC22(r *simrt.Rand, tier string) any {
 			sc.Ops = append(sc.Ops, C22Op{Op: "COMMIT"})
 		case 2:
 			sc.Ops = append(sc.Ops, C22Op{Op: "CREATE"})
+		}
+		if r.Pct(12) {
+			sc.Ops = append(sc.Ops, C22Op{Op: "SETATTR", Off: uint64([]int{0, 3, 10, 100, 4096, 6000}[r.Int(6)])})
 		}
 	}
 	if r.Pct(30) {
@@ -445,7 +479,7 @@ func shrinkC22(scAny any) []any {
 
 func init() {
 	Register(&Prop{ID: "C22", Level: "fault_enumeration",
-		Rule: "one case = one sampled history of 1-6 requests (WRITE with each stable_how at offsets around page boundaries and lengths 1..5000 incl. above the transfer size, COMMIT, CREATE) on a file of 0/10/5000 initial bytes, in 30% of the histories with 1-2 of the first four backend Sync calls failing with EIO; the history is first run crash-free to count its B backend operations, then EVERY crash point k=0..B+1 (crash right after the k-th backend call returns; clean = all unsynced data lost, or torn = an arbitrary page subset and old-or-new size survive, drawn per history) is executed in its own simulated world; 35% of the histories are concurrent: 2-3 clients on their own connections issue 1-3 WRITE/COMMIT requests each on the one file (overlapping and disjoint ranges), 2-4 workers, 0-2 short backend stalls, every interleaving decided by the seeded scheduler - the crash points enumerated are then those of that interleaving (the run is deterministic, so the prefix before the crash repeats exactly) and a COMMIT covers the WRITEs acknowledged before it was sent: crash, restart of a new server instance on the durable state after a restart gap, read-back; oracle per byte: a byte acknowledged with committed=FILE_SYNC/DATA_SYNC or covered by an acknowledged COMMIT (and not superseded) holds that value; other touched bytes hold the old or one of the written values; the write verifier is constant within an instance and differs after the restart; non-trivial = the history makes at least one backend call; distinct by event digest over all crash points",
+		Rule: "one case = one sampled history of 1-6 requests (WRITE with each stable_how at offsets around page boundaries and lengths 1..5000 incl. above the transfer size, COMMIT, CREATE, SETATTR(size) - a truncation voids earlier promises at and beyond the new size unless it was answered before that write was sent) on a file of 0/10/5000 initial bytes, in 30% of the histories with 1-2 of the first four backend Sync calls failing with EIO; the history is first run crash-free to count its B backend operations, then EVERY crash point k=0..B+1 (crash right after the k-th backend call returns; clean = all unsynced data lost, or torn = an arbitrary page subset and old-or-new size survive, drawn per history) is executed in its own simulated world; 35% of the histories are concurrent: 2-3 clients on their own connections issue 1-3 WRITE/COMMIT requests each on the one file (overlapping and disjoint ranges), 2-4 workers, 0-2 short backend stalls, every interleaving decided by the seeded scheduler - the crash points enumerated are then those of that interleaving (the run is deterministic, so the prefix before the crash repeats exactly) and a COMMIT covers the WRITEs acknowledged before it was sent: crash, restart of a new server instance on the durable state after a restart gap, read-back; oracle per byte: a byte acknowledged with committed=FILE_SYNC/DATA_SYNC or covered by an acknowledged COMMIT (and not superseded) holds that value; other touched bytes hold the old or one of the written values; the write verifier is constant within an instance and differs after the restart; non-trivial = the history makes at least one backend call; distinct by event digest over all crash points",
 		Gen:  genC22, New: func() any { return &C22Scn{} }, Run: runC22, Shrink: shrinkC22,
 		Real:        seqReal,
 		Stubbed:     []string{"backend with durability model (simfs: namespace ops durable on return, data/size volatile until Sync or O_SYNC; crash discards volatile state; old views fail after the crash)", "kernel TCP (simnet)", "clock", "scheduler"},
